@@ -17,7 +17,8 @@ SELECT = {
     # C04 also carries the supporting obligations of the shared world (representation invariants of the output state, loop
     # invariants of the flush loops, frames): they are what "bytes leave in order, once" rests on
     "C04": ("R3:", "R1[", "C04-", "monitor[", "total-never-grows", "returns-whether-sent", "accepted-range", "coverage:", "pre:owns-output-state",
-            "/inv:", "/inv-entry:", "/inv-preserved:", "frame:", "ensures:lookahead", "pre:worker", "pre:io", "__init__@IO/ensures:connected", "pre:callee-invariant"),
+            "/inv:", "/inv-entry:", "/inv-preserved:", "frame:", "ensures:lookahead", "pre:worker", "pre:io", "__init__@IO/ensures:connected", "pre:callee-invariant",
+            "queued-behind-all-pending-output"),
     "C05": ("W1-", "W2", "W4-", "W5-", "R5:", "C05-", "lock:", "coverage:", "raises:OSError", "raises-only"),
     "C11": ("R6:", "C11-", "close-when-flushed-means-queue-dropped", "R1[req]", "coverage:", "service@W[service]/loop0"),
     "C12": ("C12-", "W4-", "W5-", "R5:", "pre:owns-output-state", "R1[out]", "disconnected-before-the-lock-is-released", "lock:", "W1-", "coverage:", "pre:numbytes", "pre:nonneg"),
@@ -82,6 +83,9 @@ def main_for(prop, argv=None, level="other"):
                                    timeout=20, hooks_mod="contracts.dispatcher")
         # ... and a woken worker survives (a worker that dies on a spurious wake-up leaves the next task without anyone to run it)
         world.report(ck, resd, select=lambda n: "C05-" in n or "coverage:" in n or "lock:" in n or "handler_thread/raises" in n)
+        # ... and the wake-up itself: every pull_trigger() call writes to the pipe (no "already pulled" shortcut)
+        rest5 = world.run_functions(ck, ["trigger"], ["trigger._triggerbase.pull_trigger"], timeout=20, hooks_mod="contracts.trigger")
+        world.report(ck, rest5)
     if prop == "C11":
         # a close decision taken by the PARSER (ambiguous framing) must reach the response: build_response_header honours request.connection_close,
         # so the requests buffered behind such a message are dropped like after any other closing response
